@@ -204,7 +204,8 @@ def comb_case(full, labels, tables, comb_path, info):
 def combine_unit(ctx, quick):
     from src.stats import combine_table
     rnd = ctx.rnd; cases = []; work = tempfile.mkdtemp(prefix="iqv_c10c_")
-    pool = ["ENSG%05d.%d" % (rnd.randint(1, 300), rnd.randint(1, 9)) for _ in range(25)] + ["geneA", "GeneA", "gene10", "gene9", "_x", "10", "9", "Zfp", "a-b", "novel_gene_chr1_3"]
+    # feature ids are unique within a table (a count table never lists a feature twice): the pool itself must be duplicate-free, rnd.sample then draws distinct ids
+    pool = list(dict.fromkeys(["ENSG%05d.%d" % (rnd.randint(1, 300), rnd.randint(1, 9)) for _ in range(25)] + ["geneA", "GeneA", "gene10", "gene9", "_x", "10", "9", "Zfp", "a-b", "novel_gene_chr1_3"]))
     try:
         n = 250 if quick else 2500
         for i in range(n):
@@ -216,6 +217,7 @@ def combine_unit(ctx, quick):
                 feats = list(base) if rnd.random() < .5 else rnd.sample(pool, rnd.randint(0, 8))
                 rnd.shuffle(feats)
                 fmt = "%.6f" if full else "%.2f"
+                assert len(set(feats)) == len(feats) and len(set(labels)) == len(labels)
                 rows = [(f, fmt % rnd.choice([0, 1, 2.5, rnd.random() * 1000, rnd.randint(0, 10 ** 6), 1e6 / 3])) for f in feats]
                 rows += [("__unassigned", "%.6f" % rnd.random())] if full else [("__ambiguous", "%d" % rnd.randint(0, 9)), ("__no_feature", "%d" % rnd.randint(0, 9)), ("__not_aligned", "0")]
                 p = os.path.join(work, "t%d_%d.tsv" % (i, j))
